@@ -1,7 +1,7 @@
 #!/bin/bash
 # verify_seed.sh <Cxx>: confirms a sub-agent's seeded change in ITS scratch worktree (never in /repo):
 # suite passes with the change, the demonstration fails with it and passes without it.
-id=$1; wt=/tmp/seed/wt-$id; out=/tmp/seed/out-$id
+id=$1; root=${SEEDROOT:-/tmp/seed}; wt=$root/wt-$id; out=$root/out-$id
 export GOFLAGS=-mod=mod GOPROXY=off GOSUMDB=off GOTOOLCHAIN=local
 cd "$wt" || exit 3
 demo_path=$(python3 -c "import json;print(json.load(open('$out/meta.json')).get('demo_path','').split()[0])")
@@ -14,9 +14,9 @@ git apply "$out/patch.diff" || { echo "PATCH DOES NOT APPLY"; exit 1; }
 cp "$out/demo_test.go" "$wt/$demo_path" 2>/dev/null || cp "$out/"*demo*.go "$wt/$demo_path"
 go build ./... || { echo "BUILD FAILS"; exit 1; }
 (eval "$demo_cmd") > "$out/demo_with.log" 2>&1; with_rc=$?
-mv "$wt/$demo_path" /tmp/seed/demo-$id.go
+mv "$wt/$demo_path" $root/demo-$id.go
 go test -vet=off -count=1 ./... > "$out/suite_with.log" 2>&1; suite_rc=$?
-mv /tmp/seed/demo-$id.go "$wt/$demo_path"
+mv $root/demo-$id.go "$wt/$demo_path"
 git apply -R "$out/patch.diff"
 (eval "$demo_cmd") > "$out/demo_without.log" 2>&1; without_rc=$?
 git apply "$out/patch.diff"
